@@ -100,9 +100,11 @@ type State struct {
 	Ents   []EntRec         `json:"ents"`
 	Locked bool             `json:"locked"`
 	Used   int              `json:"used"`
-	Res    map[string]int64 `json:"res"`    // resources present: type -> value
-	RelC   []string         `json:"relc"`   // the model components the registry reports as relation components
-	NTypes int              `json:"ntypes"` // number of registered component types
+	Res    map[string]int64 `json:"res"`  // resources present: type -> value
+	RelC   []string         `json:"relc"` // the model components the registry reports as relation components
+	// handles issued before the last Reset that the world reports alive (they must have been issued again since)
+	OldAlive []ecs.Entity `json:"oldalive"`
+	NTypes   int          `json:"ntypes"` // number of registered component types
 }
 
 type BVal struct {
@@ -592,6 +594,7 @@ type Exec struct {
 	custom       map[string]ecs.EventType
 	res          map[string]resHandle
 	regCount     int
+	oldIssued    []ecs.Entity // handles issued before the last Reset of this world object
 	filtersBuilt int
 	baseTypes    int // component types registered when the world was set up
 	seq          int
@@ -685,6 +688,7 @@ func (x *Exec) newWorld() {
 	reg := ecs.EventRegistry{}
 	x.custom = map[string]ecs.EventType{"Custom0": reg.NewEventType(), "Custom1": reg.NewEventType()}
 	x.initResources()
+	x.oldIssued = nil
 	x.regCount = 0
 	x.baseTypes = len(ecs.ComponentIDs(x.w))
 }
@@ -1165,7 +1169,7 @@ func (x *Exec) entRec(e ecs.Entity) EntRec {
 }
 
 func (x *Exec) project() (st State) {
-	st = State{Alive: []ecs.Entity{}, Dead: []ecs.Entity{}, Ents: []EntRec{}, Res: map[string]int64{}, RelC: []string{}}
+	st = State{Alive: []ecs.Entity{}, Dead: []ecs.Entity{}, Ents: []EntRec{}, Res: map[string]int64{}, RelC: []string{}, OldAlive: []ecs.Entity{}}
 	defer func() {
 		if r := recover(); r != nil {
 			// a projection that panics is reported as an impossible state
@@ -1183,6 +1187,15 @@ func (x *Exec) project() (st State) {
 	st.Locked = x.w.IsLocked()
 	st.Used = x.w.Stats().Entities.Used
 	st.Res = x.resState()
+	if len(x.oldIssued) > 0 {
+		// (Alive reads the pool without a bounds check: only ids inside the pool's allocation are asked about)
+		limit := x.w.Stats().Entities.Capacity
+		for _, h := range x.oldIssued {
+			if int(h.ID()) < limit && x.w.Alive(h) {
+				st.OldAlive = append(st.OldAlive, h)
+			}
+		}
+	}
 	for _, c := range x.Cfg.Comps {
 		if info, ok := ecs.ComponentInfo(x.w, x.ids[c]); ok && info.IsRelation {
 			st.RelC = append(st.RelC, c)
@@ -1430,6 +1443,11 @@ func (x *Exec) run(op GenOp, i int) LogOp {
 		x.ords, x.issued = keepOrds, keepIssued
 	}
 	if op.Op == "Reset" && !lo.Panic {
+		// the handles of the entities the Reset removed: none of them is alive until it is issued again
+		x.oldIssued = append(x.oldIssued, x.issued...)
+		if n := len(x.oldIssued); n > 48 {
+			x.oldIssued = x.oldIssued[n-48:]
+		}
 		for id, o := range x.obs {
 			x.oldObs[id] = oldObs{o: o, spec: fmt.Sprint(x.obsSpec[id])}
 		}
@@ -1872,6 +1890,8 @@ func (x *Exec) dispatch(op GenOp, e ecs.Entity, tg map[string]ecs.Entity, lo *Lo
 		if op.Mode == "reset" {
 			w.Reset()
 			w.Unsafe().LoadEntities(&d)
+			// (the loaded pool is a new one: handles of earlier epochs of this world object were never issued by it)
+			x.oldIssued = nil
 			return
 		}
 		w2 := ecs.NewWorld(x.Cfg.Caps...)
@@ -1884,6 +1904,7 @@ func (x *Exec) dispatch(op GenOp, e ecs.Entity, tg map[string]ecs.Entity, lo *Lo
 			}
 		}
 		w2.Unsafe().LoadEntities(&d)
+		x.oldIssued = nil
 		x.baseTypes = len(ecs.ComponentIDs(w2)) - (len(ecs.ComponentIDs(w)) - x.baseTypes)
 		x.w = w2
 		for _, n := range resNames {
